@@ -152,8 +152,7 @@ def judge(w, src, fmt=False):
                         "accepted" if rq_accept0 else "rejected")
     for o in D:
         for h in D + ["sql.any"]:
-            if h == o:
-                continue
+            # (the diagonal option == header is a cell like any other: both name the same dialect)
             k = outkey(comp(header(h) + src, o))
             obs["cells"].add((_cls(o), _cls(h)))
             if k != base[o]:
